@@ -132,28 +132,32 @@ def run(ck, prog, ctx):
             if db is None:
                 ck.undecided("ORDER", "decoder/" + kind, "private helper %s not found" % nm)
                 continue
-            inserts = [(bi, t) for bi, t in db.calls() if t.callee.method == "insert" and "HashMap" in (t.callee.def_args or "")]
-            decs = [(bi, t) for bi, t in db.calls() if t.callee.method in ("try_from", "from_bytes") and ("annotations::" in (t.callee.def_args or ""))]
+            # the record loop may be a closure handed to a private driver (`for_each_record(bytes, |record| { .. })`): the steps are looked for
+            # in the function and its closures
+            fam_ = prog.family(db)
+            inserts = [(fb_, t) for fb_ in fam_ for bi, t in fb_.calls() if t.callee.method == "insert" and "HashMap" in (t.callee.def_args or "")]
+            decs = [(fb_, t) for fb_ in fam_ for bi, t in fb_.calls() if t.callee.method in ("try_from", "from_bytes") and ("annotations::" in (t.callee.def_args or ""))]
             # ... or through a private generic helper instantiated with the record type (`length_prefixed_record::<Gene>(bytes, offset)`)
-            for bi, t in db.calls():
-                hb_ = prog.bodies.get(t.callee.res or "")
-                if hb_ is not None and hb_.kind in ("Fn", "AssocFn") and not (hb_.exported or hb_.reachable or hb_.impl_trait) and "annotations::" in (t.callee.def_args or ""):
-                    if any(ht.callee.method in ("try_from", "from_bytes", "try_into") for fb_ in prog.family(hb_) for _, ht in fb_.calls()):
-                        decs.append((bi, t))
-            links = [(bi, t) for bi, t in db.calls() if re.search(r"::link_\w+_term$", t.callee.res or "")]
+            for fb_ in fam_:
+                for bi, t in fb_.calls():
+                    hb_ = prog.bodies.get(t.callee.res or "")
+                    if hb_ is not None and hb_.kind in ("Fn", "AssocFn") and not (hb_.exported or hb_.reachable or hb_.impl_trait) and "annotations::" in (t.callee.def_args or ""):
+                        if any(ht.callee.method in ("try_from", "from_bytes", "try_into") for fb2_ in prog.family(hb_) for _, ht in fb2_.calls()):
+                            decs.append((fb_, t))
+            links = [(fb_, t) for fb_ in fam_ for bi, t in fb_.calls() if re.search(r"::link_\w+_term$", t.callee.res or "")]
             okk = True
             why = []
-            for bi, t in inserts:
-                fl = field_names(pvn.of_operand(db, t.args[0]), "Builder") & {"genes", "omim_diseases", "orpha_diseases"}
+            for fb_, t in inserts:
+                fl = field_names(pv.of_operand(fb_, t.args[0]), "Builder") & {"genes", "omim_diseases", "orpha_diseases"}
                 if fl != {fld}:
                     okk = False
                     why.append("inserts into %s" % sorted(fl))
-            for bi, t in decs:
+            for fb_, t in decs:
                 ks = kinds_in_type(t.callee.def_args or "")
                 if ks != {kind}:
                     okk = False
                     why.append("decodes %s" % sorted(ks))
-            for bi, t in links:
+            for fb_, t in links:
                 ks = kind_of_callee(t.callee)
                 if ks != {kind}:
                     okk = False
